@@ -31,6 +31,9 @@ func execC14(t *testing.T, p Plan, src kernel.Source) Result {
 		}
 		pooled := p.Cfg.L1 == "batched" || p.Cfg.L2 == "batched"
 		if pooled {
+			// several connections submit to the shared pool in the same kernel step: the
+			// pool's connection choice parks so that the kernel orders the submissions
+			w.Run.ParkSubmit = true
 			w.TimerStep = time.Duration(max(int64(p.Cfg.BatchDelayMicros), int64(50))) * time.Microsecond
 			w.TimerBudget = 4000
 		}
